@@ -29,8 +29,13 @@ LEAVES_STATE = {'ok', 'ok_json_accept', 'crash', 'raised', 'gen', 'cookie_then_a
 ERROR_KINDS = ['notfound', 'notfound_json', 'wrongverb', 'badpath', 'badchunk', 'oversized', 'badmultipart', 'badjson', 'crash', 'cookie_then_abort']
 
 
+def _nodate(t):
+    # (the Date header of static_file is the wall clock: not part of what a request determines)
+    return (t[0], [h for h in t[1] if h[0] != 'Date'], t[2])
+
+
 def triple(r):
-    return (r.status, sorted(r.headers or []), r.body)
+    return _nodate((r.status, sorted(r.headers or []), r.body))
 
 
 _FRESH = {}          # references computed in fresh interpreter processes (vlib/fresh.py), consulted first
@@ -44,7 +49,7 @@ def _app(cfg):
 def reference(kind, n, cache, cfg=None):
     key = (kind, n) if not cfg else (kind, n, cfg)
     if key in _FRESH:
-        return _FRESH[key]
+        return _nodate(_FRESH[key])
     if key not in cache:
         app = _app(cfg)
         r = call_app(app, S.make_env(kind, n))
